@@ -305,7 +305,7 @@ pub fn gen_step(args: &Args) {
         let par = gen_params(&mut r);
         // the iteration index: small ones, powers of two and their neighbours, round numbers - and, for a third of the
         // cases, any index up to 300 (something done only every k-th iteration shows at a multiple of k)
-        let it = if r.chance(0.33) { r.range(2, 300) } else { *r.pick(&[1i64, 2, 3, 7, 50, 64, 255, 256, 1000, 1024, 1025, 4096, 65536, 65537]) };
+        let it = if r.chance(0.33) { r.range(2, 300) } else { *r.pick(&[1i64, 2, 3, 7, 50, 64, 255, 256, 1000, 1024, 1025, 4096, 65536, 65537, 1048575, 1048576, 1048577]) };
         let mut state = Vec::new();
         for pl in 1..=2u8 {
             let mut infos = BTreeMap::new();
